@@ -968,6 +968,18 @@ class C19(Check):
                             self.sample({"config": cfg, "block": rows[0] if rows else None})
                         if bad:
                             self.violate("python-dispatch", "arguments %s: %s" % (cfg, ", ".join(bad)), {"config": cfg, "blocks_firing": rows})
+        # the statements before the dispatch: do the guards see what the caller passed, are the weights cast as named?
+        from . import pyxsim
+        try:
+            found = pyxsim.search(open(os.path.join(C.REPO, "python", "package", "multitensor.pyx")).read())
+        except Exception:
+            found = None
+        self.cov["prologue_simulated"] = found is not None
+        if found is not None:
+            self.cov["evaluations"] += 48
+            self.monitor("prologue runs (3 files x 16 argument combinations, numpy stand-in)", 48)
+        for f in (found or [])[:3]:
+            self.violate("python-prologue", "run(%s): %s" % (", ".join("%s=%r" % (k, v) for k, v in f["call"].items() if k not in ("adjacency_file", "init_affinity_file")), f["what"]), f)
         if not t["pyxVNoneUnlessDirected"]:
             self.violate("python-dispatch", "epilogue does not return None as in-membership for undirected runs", {"epilogue": False})
         self.cov["exhaustive"] = True
